@@ -219,6 +219,11 @@ func runC17(r *vhlib.Run) {
 			rng.Read(b)
 			ops = append(ops, xwOp{Kind: 'w', Data: b}, xwOp{Kind: 'f', Mode: 0})
 			size += n
+			if size > 2000 && size < 2000+chunk/2 {
+				// the exported statistics fields may be set to any value ("per member" counters): chunking
+				// must not follow them
+				ops = append(ops, xwOp{Kind: 'o', Mode: 0})
+			}
 		}
 		ops = append(ops, xwOp{Kind: 'c'})
 		sink, plain, ok := makeXFStream(cfg, ops)
